@@ -263,8 +263,24 @@ fn start(l: &Launch, dir: &Path, addrs: &[String], ids: &Ids) -> Result<Running,
         if t0.elapsed() > Duration::from_secs(10) {
             return Err("server did not start answering within 10 s".into());
         }
-        std::thread::sleep(Duration::from_millis(20));
+        std::thread::sleep(Duration::from_millis(if t0.elapsed() < Duration::from_millis(100) { 4 } else { 20 }));
     }
+}
+
+/// The executable with nothing but a data directory and one loopback address (E-CRASH recovers
+/// crash images through its start-up path). A start that ends at once is tried again on a fresh
+/// port before it counts (another process may have taken the port in between).
+pub fn start_plain(dir: &Path) -> Result<Running, String> {
+    let l = Launch { listen: vec!["v4".into()], listen_via: Via::Flag, data_via: Via::Flag, allow: 0, allow_via: Via::Flag, versions: None, versions_via: Via::Flag, days: None, days_via: Via::Flag };
+    let mut last = String::new();
+    for _ in 0..3 {
+        let addr = format!("127.0.0.1:{}", free_port(false));
+        match start(&l, dir, &[addr], &Ids { clients: vec![] }) {
+            Ok(r) => return Ok(r),
+            Err(e) => last = e,
+        }
+    }
+    Err(last)
 }
 
 const HS_CT: &str = "application/vnd.taskchampion.history-segment";
